@@ -293,7 +293,7 @@ func (root *Root) addExtends(undo *[]func(), extends ...*Extend) (err error) {
 			if cur == nil {
 				cur = root.dirs.get(x.Adds.Name())
 			}
-		} else if schema, _ := x.Adds.(*Schema); schema != nil {
+		} else if schema, _ := x.Adds.(*Schema); schema != nil && root.schema != nil {
 			cur = root.schema
 		}
 		if cur == nil {
